@@ -188,6 +188,20 @@ Proof. intros Hb Hk H. pose proof (embed_sum_prod n3 k s t c' c l Hb) as E.
   destruct (Ht n3 Hn) as [Ha Hsa]. specialize (H (t n3) (t n3) Ha Ha). specialize (E (t n3) (t n3) Ha Ha).
   rewrite E in H. unfold embed_fast, emb_block, mid in H. rewrite Hsa in H.
   destruct (Nat.ltb_spec n3 n3); [lia|]. now rewrite !Nat.eqb_refl in H. Qed.
+(* POVMs: the embedded elements sum to the identity when the elements do and m c = 1 (Povm._embed...: c = 1 / m) *)
+Fixpoint sum_mats (l : list mat) : mat := match l with [] => mzero | A :: r => madd A (sum_mats r) end.
+Theorem embed_sum_mats n3 s c (l : list mat) : forall i j,
+  sum_mats (map (embed_fast n3 s c) l) i j = embed_fast n3 s (nsum (length l) c) (sum_mats l) i j.
+Proof. induction l as [|A r IH]; intros i j; cbn [map sum_mats length nsum].
+  - unfold mzero, embed_fast, emb_block. destruct (s i <? n3)%nat; [destruct (s j <? n3)%nat|destruct (Nat.eqb (s i) (s j))]; reflexivity.
+  - rewrite <- embed_madd. unfold madd. now rewrite IH. Qed.
+Theorem embed_povm_identity_sum n3 k s t c (l : list mat) : bij (n3 + k) s t ->
+  meq n3 n3 (sum_mats l) mid -> nsum (length l) c = 1 ->
+  meq (n3 + k) (n3 + k) (sum_mats (map (embed_fast n3 s c) l)) mid.
+Proof. intros Hb Hsum Hc i j Hi Hj. rewrite embed_sum_mats, Hc. rewrite (embed_ext n3 s 1 _ mid Hsum). now apply (embed_id n3 k s t Hb). Qed.
+(* the m-fold sum is m times the summand: with c c m = 1 (c = 1 / sqrt m) resp. c m = 1 (c = 1 / m) the conditions above hold *)
+Lemma nsum_scale m x : nsum m x = nsum m 1 * x.
+Proof. induction m as [|m IH]; cbn [nsum]; [ring|]. rewrite IH. ring. Qed.
 End EmbedTP.
 
 (* the permutation built by _permutation_matrix_from_qutrits_to_qubits is a bijection of [0, 4^n) — checked by evaluation
